@@ -52,7 +52,9 @@ def write_risk_csv(path, tokens, risk, decimals):
 @market_builder("aave")
 def build_aave(sim, mw):
     tmp = private_cwd()
-    path = os.path.join(tmp, f"risk-{mw['name']}-{id(sim)}.csv")
+    # one path for every market of the process, rewritten before each load: a loader that remembers what it parsed for a
+    # path hands a later market the parameters of an earlier one
+    path = os.path.join(tmp, "risk-parameters.csv")
     tokens = [t.upper() for t in mw["tokens"]]
     write_risk_csv(path, tokens, mw["risk"], sim.world.get("tokens", {}))
     infos = [sim.token(t) for t in tokens]
@@ -423,6 +425,10 @@ def gen_aave_market(rng, name, n, prices, tokens=None, index_style=None, min_gap
     for c in COLS:
         mw[c] = {}
     used = []
+    # "frozen": a quiet reserve, every row of the file repeats the one before (indices and rates), only prices move
+    frozen = index_style == "frozen" or (index_style is None and rng.random() < 0.06)
+    if frozen:
+        index_style = "flat"
     for t in tokens:
         style = index_style or rng.choice(["slow", "fast", "fast", "jumpy", "flat"])
         for _ in range(50):
@@ -435,9 +441,14 @@ def gen_aave_market(rng, name, n, prices, tokens=None, index_style=None, min_gap
         mw["variable_borrow_index"][t] = gen_index_path(rng, n, b0, style if style != "flat" else rng.choice(["flat", "slow"]))
         lr = rng.choice([0.0, rng.uniform(0.0001, 0.08)])
         br = lr * rng.uniform(1.1, 2.5) + rng.choice([0.0, 0.01])
+        if frozen:
+            mw["variable_borrow_index"][t] = [mw["variable_borrow_index"][t][0]] * n
         mw["liquidity_rate"][t] = [dstr(lr * (1 + 0.01 * ((i * 7) % 5)), 27) for i in range(n)]
         mw["variable_borrow_rate"][t] = [dstr(br * (1 + 0.01 * ((i * 3) % 7)), 27) for i in range(n)]
         mw["stable_borrow_rate"][t] = [dstr(br * 1.2, 27)] * n
+        if frozen:
+            for c in ("liquidity_rate", "variable_borrow_rate"):
+                mw[c][t] = [mw[c][t][0]] * n
     return mw
 
 
